@@ -35,7 +35,8 @@ THEOREMS = ['GV.ST.' + t for t in (
     'time_none', 'containsTime_at', 'containsTime_ti', 'intersectsTime_at', 'intersectsTime_ti',
     'ctorDt_instant', 'ctorDt_naive_utc', 'ctorDt_same_instant', 'setDt_eq_ctorDt', 'dt_routes_agree',
     'ctorDt_wf', 'ctorDt_den', 'hist_fresh', 'bufferDt_none', 'bufferDt_ok', 'bufferDt_err', 'bufferDt_zero',
-    'bufferDt_instant_den', 'bufferDt_to_instant', 'applyMuts_wf')]
+    'bufferDt_instant_den', 'bufferDt_to_instant', 'applyMuts_wf',
+    'contains_trans', 'contains_trans_needs_bounded_middle', 'contains_self', 'intersects_mono')]
 
 # "naive datetimes are read as UTC" must not depend on where the process runs: give this process a local
 # time zone that is *not* UTC (POSIX TZ string, no tz database needed), so that code reading a naive
